@@ -1,12 +1,209 @@
 (* C02 -- Genetic operators only produce well-formed, well-typed individuals.
-   Statements only; proofs in Mep/OpsProofs.v. *)
-From Coq Require Import ZArith List Bool.
-From VV Require Import Base.F64 Mep.Genome Mep.Draws Mep.OpsDefs Mep.OpsProofs.
-Import ListNotations.
-Local Open Scope Z_scope.
 
-(* mutation with probability zero changes nothing, whatever the draw stream *)
+   Model: Mep/OpsDefs.v (i_mep / team<i_mep> operators over the shared genome
+   of Mep/Genome.v), randomness as an oracle stream (Mep/Draws.v): the draw
+   primitives give no result on a stream that breaks the contract of
+   random::between / boolean, so "forall ds, op ds = Some r -> ..." covers
+   every stream a real generator can produce.  [ind_ok_b ss patch g] is the
+   well-formedness of the property: every cell populated with a symbol of the
+   symbol set whose category is its column, as many arguments as the arity,
+   every argument index strictly later and inside, argument categories
+   inside, the patch section made of terminals, the entry point inside.
+   Statements only; proofs in Mep/OpsProofs.v, CseProofs.v, ClosureProofs.v. *)
+From Coq Require Import ZArith List Bool.
+Local Ltac c02_scan0 := idtac. (* separates the Require lines for the dependency scanner of lib/vv.py *)
+From VV Require Import Base.F64 Base.Values Interp.Strategy Mep.Genome Mep.Draws Mep.OpsDefs
+  Mep.OpsProofs Mep.CseProofs Mep.ClosureProofs.
+Local Ltac c02_scan1 := idtac.
+Import ListNotations.
+
+(* symbol_set::roulette(c) / roulette_terminal(c) only return symbols of category c *)
+Theorem C02_roulette_returns_category : forall ss, wf_sset_b ss = true -> forall c ds s ds',
+  (c < ss_cats ss)%nat -> roulette ss c ds = Some (s, ds') ->
+  sym_in_b ss s = true /\ s_cat s = c /\ forallb (fun ac => Nat.ltb ac (ss_cats ss)) (s_argcats s) = true.
+Proof. exact roulette_ok. Qed.
+Print Assumptions C02_roulette_returns_category.
+
+Theorem C02_roulette_terminal_returns_terminal : forall ss, wf_sset_b ss = true -> forall c ds s ds',
+  (c < ss_cats ss)%nat -> roulette_terminal ss c ds = Some (s, ds') ->
+  sym_good ss c s /\ is_terminal s = true.
+Proof. exact roulette_terminal_ok. Qed.
+Print Assumptions C02_roulette_terminal_returns_terminal.
+
+(* the wheel never reads past its elements when the slot is below the sum *)
+Theorem C02_wheel_pick_defined : forall w slot, Forall (fun e => (0 <= snd e)%Z) w ->
+  (0 <= slot < wheel_sum w)%Z -> exists s, wheel_pick w slot = Some s.
+Proof. exact wheel_pick_some. Qed.
+Print Assumptions C02_wheel_pick_defined.
+
+(* ---- each operator preserves well-formedness *)
+Theorem C02_random_ind_wf : forall ss, wf_sset_b ss = true -> forall R patch ds i ds',
+  random_ind ss R patch ds = Some (i, ds') ->
+  ind_ok_b ss patch (i_gen i) = true /\ rows (i_gen i) = R /\ i_age i = 0%N.
+Proof. exact random_ind_wf. Qed.
+Print Assumptions C02_random_ind_wf.
+
+Theorem C02_mutation_wf : forall ss, wf_sset_b ss = true -> forall patch pgm i ds i' n ds',
+  ind_ok_b ss patch (i_gen i) = true -> mutation ss patch pgm i ds = Some (i', n, ds') ->
+  ind_ok_b ss patch (i_gen i') = true /\ rows (i_gen i') = rows (i_gen i) /\ cats (i_gen i') = cats (i_gen i) /\
+  best (i_gen i') = best (i_gen i) /\ i_age i' = i_age i /\ i_xt i' = i_xt i.
+Proof. exact mutation_wf. Qed.
+Print Assumptions C02_mutation_wf.
+
 Theorem C02_mutation_zero_is_identity : forall ss patch i ds i' n ds',
   mutation ss patch zero_bits i ds = Some (i', n, ds') -> i' = i /\ n = 0%nat.
 Proof. exact mutation_zero_is_identity. Qed.
 Print Assumptions C02_mutation_zero_is_identity.
+
+(* all four flavours: each gene of the offspring is the gene one of its
+   parents has at the same position, same size, age of the older parent *)
+Theorem C02_crossover_gene_provenance_size_age : forall lhs rhs ds c ds',
+  crossover lhs rhs ds = Some (c, ds') ->
+  rows (i_gen c) = rows (i_gen lhs) /\ cats (i_gen c) = cats (i_gen lhs) /\
+  rows (i_gen lhs) = rows (i_gen rhs) /\ cats (i_gen lhs) = cats (i_gen rhs) /\
+  (forall r k, cell (i_gen c) r k = cell (i_gen lhs) r k \/ cell (i_gen c) r k = cell (i_gen rhs) r k) /\
+  (best (i_gen c) = best (i_gen lhs) \/ best (i_gen c) = best (i_gen rhs)) /\
+  i_age c = N.max (i_age lhs) (i_age rhs) /\
+  (i_xt c = i_xt lhs \/ i_xt c = i_xt rhs).
+Proof. exact crossover_spec. Qed.
+Print Assumptions C02_crossover_gene_provenance_size_age.
+
+Theorem C02_crossover_wf : forall ss patch lhs rhs ds c ds',
+  ind_ok_b ss patch (i_gen lhs) = true -> ind_ok_b ss patch (i_gen rhs) = true ->
+  crossover lhs rhs ds = Some (c, ds') -> ind_ok_b ss patch (i_gen c) = true.
+Proof. exact crossover_wf. Qed.
+Print Assumptions C02_crossover_wf.
+
+Theorem C02_get_block_wf : forall ss patch i l,
+  ind_ok_b ss patch (i_gen i) = true -> inside_b (i_gen i) l = true ->
+  ind_ok_b ss patch (i_gen (get_block i l)) = true.
+Proof. exact get_block_wf. Qed.
+Print Assumptions C02_get_block_wf.
+
+(* replacement of a gene by a compatible one *)
+Theorem C02_replace_wf : forall ss patch i l ge,
+  ind_ok_b ss patch (i_gen i) = true -> inside_b (i_gen i) l = true ->
+  gene_ok_b ss (rows (i_gen i)) (cats (i_gen i)) patch (l_index l) (l_cat l) ge = true ->
+  ind_ok_b ss patch (i_gen (replace i l ge)) = true.
+Proof. exact replace_wf. Qed.
+Print Assumptions C02_replace_wf.
+
+Theorem C02_destroy_block_wf : forall ss, wf_sset_b ss = true -> forall patch i index ds i' ds',
+  ind_ok_b ss patch (i_gen i) = true -> destroy_block ss i index ds = Some (i', ds') ->
+  ind_ok_b ss patch (i_gen i') = true /\ rows (i_gen i') = rows (i_gen i) /\ cats (i_gen i') = cats (i_gen i).
+Proof. exact destroy_block_wf. Qed.
+Print Assumptions C02_destroy_block_wf.
+
+(* cse() with the repaired comparator.  [params_swo_b]: on the parameters of
+   the parametric terminals present, "neither is less" is reflexive and
+   transitive (true whenever none of them is a NaN) *)
+Theorem C02_cse_wf : forall ss patch i i',
+  wf_sset_b ss = true -> ind_ok_b ss patch (i_gen i) = true -> params_swo_b (i_gen i) = true ->
+  cse i = Some i' ->
+  ind_ok_b ss patch (i_gen i') = true /\ i_age i' = i_age i /\ i_xt i' = i_xt i.
+Proof. exact cse_wf. Qed.
+Print Assumptions C02_cse_wf.
+
+(* ---- closure: every individual reachable from randomly created ones by
+   any finite sequence of operators, for every draw stream, is well-formed *)
+Theorem C02_reachable_wf : forall ss R patch, wf_sset_b ss = true -> forall i,
+  reachable ss R patch i ->
+  ind_ok_b ss patch (i_gen i) = true /\ rows (i_gen i) = R /\ cats (i_gen i) = ss_cats ss.
+Proof. exact reachable_wf. Qed.
+Print Assumptions C02_reachable_wf.
+
+(* ---- so executing it never leaves the genome *)
+Theorem C02_wf_exec_safe : forall ss patch g, ind_ok_b ss patch g = true -> active_tree g <> None.
+Proof. exact wf_exec_safe. Qed.
+Print Assumptions C02_wf_exec_safe.
+
+Theorem C02_reachable_exec_safe : forall ss R patch, wf_sset_b ss = true -> forall i,
+  reachable ss R patch i -> active_tree (i_gen i) <> None.
+Proof. exact reachable_exec_safe. Qed.
+Print Assumptions C02_reachable_exec_safe.
+
+(* the property's well-formedness implies the shared one of Mep/Genome.v *)
+Theorem C02_ind_ok_implies_wf_genome : forall ss patch g, ind_ok_b ss patch g = true -> wf_genome_b g = true.
+Proof. exact ind_ok_wf_genome. Qed.
+Print Assumptions C02_ind_ok_implies_wf_genome.
+
+(* ---- teams: liftings member by member *)
+Theorem C02_random_team_wf : forall ss, wf_sset_b ss = true -> forall patch R n ds t ds',
+  random_team ss R patch n ds = Some (t, ds') -> team_ok ss patch R t /\ length t = n.
+Proof. exact random_team_wf. Qed.
+Print Assumptions C02_random_team_wf.
+
+Theorem C02_team_mutation_wf : forall ss, wf_sset_b ss = true -> forall patch R pgm t ds t' n ds',
+  team_ok ss patch R t -> team_mutation ss patch pgm t ds = Some (t', n, ds') ->
+  team_ok ss patch R t' /\ length t' = length t.
+Proof. exact team_mutation_wf. Qed.
+Print Assumptions C02_team_mutation_wf.
+
+Theorem C02_team_mutation_zero_is_identity : forall ss patch t ds t' n ds',
+  team_mutation ss patch zero_bits t ds = Some (t', n, ds') -> t' = t /\ n = 0%nat.
+Proof. exact team_mutation_zero. Qed.
+Print Assumptions C02_team_mutation_zero_is_identity.
+
+Theorem C02_team_crossover_wf : forall ss patch R l r ds t ds',
+  team_ok ss patch R l -> team_ok ss patch R r ->
+  team_crossover l r ds = Some (t, ds') -> team_ok ss patch R t /\ length t = length l.
+Proof. exact team_crossover_wf. Qed.
+Print Assumptions C02_team_crossover_wf.
+
+(* ------------------------------------------------------------ non-vacuity *)
+(* a two-category strongly typed symbol set with a parametric terminal, three
+   rows, patch 1; a contract-abiding draw stream on which the constructor,
+   every crossover precondition, mutation, destroy_block and cse all return a
+   result *)
+Definition ex_f0 : sym := {| s_opcode := 0; s_cat := 0; s_argcats := [0; 1]; s_parametric := false; s_strat := Ret Stuck |}.
+Definition ex_t0 : sym := {| s_opcode := 1; s_cat := 0; s_argcats := []; s_parametric := false; s_strat := Ret Stuck |}.
+Definition ex_p1 : sym := {| s_opcode := 2; s_cat := 1; s_argcats := []; s_parametric := true; s_strat := Ret Stuck |}.
+Definition ex_ss : sset :=
+  {| ss_cats := 2; ss_funs := [[(ex_f0, 100%Z)]; []]; ss_terms := [[(ex_t0, 100%Z)]; [(ex_p1, 100%Z)]] |}.
+Definition ex_draws : list draw :=
+  [DInt 0 4 0;
+   DBool half_bits true; DInt 0 100 5; DInt 1 3 1; DInt 1 3 2;        (* [0,0] f0 1 2 *)
+   DBool half_bits false; DInt 0 100 0; DInt (-100) 100 7;            (* [0,1] p1(7) *)
+   DBool half_bits false; DInt 0 100 3;                               (* [1,0] t0 *)
+   DBool half_bits true; DInt 0 100 1; DInt (-100) 100 9;             (* [1,1] p1(9): no function of category 1 *)
+   DInt 0 100 0;                                                      (* [2,0] t0 *)
+   DInt 0 100 0; DReal 0x4000000000000000]%Z.                         (* [2,1] p1(2.0) *)
+Definition ex_ind : option ind :=
+  match random_ind ex_ss 3 1 ex_draws with Some (i, []) => Some i | _ => None end.
+
+Example C02_ex_sset_wf : wf_sset_b ex_ss = true.
+Proof. vm_compute. reflexivity. Qed.
+Example C02_ex_random_ind :
+  match ex_ind with
+  | Some i => ind_ok_b ex_ss 1 (i_gen i) && params_swo_b (i_gen i) && Nat.eqb (rows (i_gen i)) 3
+  | None => false
+  end = true.
+Proof. vm_compute. reflexivity. Qed.
+Definition is_some {A} (o : option A) : bool := match o with Some _ => true | None => false end.
+Lemma is_some_exists {A} (o : option A) : is_some o = true -> exists x, o = Some x.
+Proof. destruct o as [x|]; [eauto|discriminate]. Qed.
+Example C02_ex_reachable : exists i, reachable ex_ss 3 1 i.
+Proof.
+  assert (H : is_some (random_ind ex_ss 3 1 ex_draws) = true) by (vm_compute; reflexivity).
+  apply is_some_exists in H. destruct H as [[i ds'] E]. exists i. eapply R_random. exact E.
+Qed.
+Example C02_ex_operators_defined :
+  match ex_ind with
+  | Some i =>
+      is_some (crossover (force_xover i OnePoint) i [DBool half_bits true; DInt 1 2 1]%Z) &&
+      is_some (crossover (force_xover i TwoPoints) i [DBool half_bits false; DInt 0 2 0; DInt 1 3 2]%Z) &&
+      is_some (crossover (force_xover i TreeX) i [DBool half_bits false; DInt 0 3 1]%Z) &&
+      is_some (crossover (force_xover i UniformX) i
+                 (DBool half_bits false :: repeat (DBool half_bits true) 6)) &&
+      match mutation ex_ss 1 one_bits i
+              [DBool one_bits true; DBool half_bits true; DInt 0 100 0; DInt 1 3 2; DInt 1 3 2;
+               DBool one_bits true; DInt 0 100 0;
+               DBool one_bits true; DInt 0 100 0; DInt (-100) 100 3]%Z with
+      | Some (_, n, []) => Nat.eqb n 2
+      | _ => false
+      end &&
+      is_some (destroy_block ex_ss i 0 [DInt 0 100 0; DInt 0 100 0; DInt (-100) 100 1]%Z) &&
+      is_some (cse i)
+  | None => false
+  end = true.
+Proof. vm_compute. reflexivity. Qed.
